@@ -299,6 +299,10 @@ func init() {
 				{"g." + name, []string{"g." + name, "2001:db8::1"}},
 				{good, []string{good, "localhost"}},
 				{"", []string{"h." + name, good, "10.0.0.1"}},
+				// common names that LOOK like addresses but are not IP addresses in textual form (zone suffix, port,
+				// prefix length, brackets, five or three parts, leading zeros, blanks): names whose right-most label decides
+				{[]string{"fe80::1%eth0", "fe80::1%www.example.invalidtldzz", "10.1.2.3:443", "10.1.2.3/24", "[2001:db8::1]", "1.2.3.4.5", "1.2.3", "010.001.002.003", " 10.1.2.3", "10.1.2.3 ", "0x0a.1.2.3", "1.2.3.4."}[i%12], []string{good, "i." + name}},
+				{[]string{"::ffff:10.0.0.1", "::", "0.0.0.0", "255.255.255.255", "2001:DB8::A", "::1"}[i%6], []string{good, "j." + name}},
 			}
 			for _, t := range c18Instants(r) {
 				if t.Year() < 1951 || t.Year() > 2049 {
